@@ -546,20 +546,30 @@ def g_field(which, nc, na, ng, weighted):
             ens = _ensemble(nc, na, w)
             if not weighted:
                 ens._weights = np.array([1.0 + 2 * c for c in range(nc)])       # must be ignored
-            radii = [Fraction(float(a.vdw_radius)) for a in ens.atoms]
+            sym_r = which == "aif"
+            if sym_r:                                                              # atomic_indicator_field itself, with every sphere radius a positive symbolic real
+                rad_sr = np.array([SR(z3.Real(f"rad{i}")) for i in range(na)], dtype=object)
+                for i in range(na):
+                    CTX.assume(E(rad_sr[i]) > 0)
+                radii = None
+            else:
+                radii = [Fraction(float(a.vdw_radius)) for a in ens.atoms]
             d2 = [[[E(_d2(grid[j], ens._coords[c, i])) for i in range(na)] for j in range(ng)] for c in range(nc)]
-            for c in range(nc):                                                    # rounding band at the sphere surfaces (excluded by the property)
+            for c in range(nc if not sym_r else 0):                                # rounding band at the sphere surfaces (excluded by the property)
                 for j in range(ng):
                     for i in range(na):
                         r2 = radii[i] * radii[i]
                         CTX.assume(z3.Or(d2[c][j][i] <= z3.RealVal(str(r2 * Fraction(999999, 1000000))), d2[c][j][i] >= z3.RealVal(str(r2 * Fraction(1000001, 1000000)))))
-            if which == "aeif":                                                    # ties between atoms: the nearest atom is not defined
+            if which in ("aeif", "aif"):                                           # ties between atoms: the nearest atom is not defined
                 for c in range(nc):
                     for j in range(ng):
                         for i in range(na):
                             for i2 in range(i + 1, na):
                                 CTX.assume(d2[c][j][i] != d2[c][j][i2])
-            res = GB.aso(ens, grid, weighted=weighted) if which == "aso" else GB.aeif(ens, grid, weighted=weighted)
+            if sym_r:
+                res = GB.atomic_indicator_field(ens, grid, ens._atomic_charges, rad_sr, weighted=weighted)
+            else:
+                res = GB.aso(ens, grid, weighted=weighted) if which == "aso" else GB.aeif(ens, grid, weighted=weighted)
             res = np.asarray(res, dtype=object)
             goals = [(f"{which}: one value per grid point", z3.BoolVal(tuple(res.shape) != (ng,)))]
             if tuple(res.shape) != (ng,):
@@ -568,7 +578,7 @@ def g_field(which, nc, na, ng, weighted):
             for j in range(ng):
                 vals = []
                 for c in range(nc):
-                    occ = z3.Or(*[d2[c][j][i] <= z3.RealVal(str(radii[i] * radii[i])) for i in range(na)])
+                    occ = z3.Or(*[d2[c][j][i] <= (E(rad_sr[i]) * E(rad_sr[i]) if sym_r else z3.RealVal(str(radii[i] * radii[i]))) for i in range(na)])
                     v = z3.RealVal(1) if which == "aso" else _ite_nearest_charge(d2[c][j], ens._atomic_charges[c])
                     vals.append(z3.If(occ, v, z3.RealVal(0)))
                 want = sum(ws[c] * vals[c] for c in range(nc)) / sum(ws)
@@ -588,10 +598,13 @@ def replay_field(which, nc, na, ng, weighted):
         ens._coords = X.copy()
         ens._atomic_charges = np.array([[0.25 * (i + 1) * (-1) ** i + 0.0625 * c for i in range(na)] for c in range(nc)], dtype=float)
         ens._weights = np.array([sr.fval(model, f"w{c}", 1.0) for c in range(nc)]) if weighted else np.array([1.0 + 2 * c for c in range(nc)])
-        rad = np.array([a.vdw_radius for a in ens.atoms])
+        rad = np.array([a.vdw_radius for a in ens.atoms]) if which != "aif" else np.array([sr.fval(model, f"rad{i}", 1.0) for i in range(na)])
         with warnings.catch_warnings():
             warnings.simplefilter("ignore")
-            got = np.asarray(GB.aso(ens, grid.astype(np.float32) if which == "aso" else grid, weighted=weighted) if which == "aso" else GB.aeif(ens, grid, weighted=weighted), dtype=float)
+            if which == "aif":
+                got = np.asarray(GB.atomic_indicator_field(ens, grid, ens._atomic_charges, rad, weighted=weighted), dtype=float)
+            else:
+                got = np.asarray(GB.aso(ens, grid.astype(np.float32) if which == "aso" else grid, weighted=weighted) if which == "aso" else GB.aeif(ens, grid, weighted=weighted), dtype=float)
         want = np.zeros(ng)
         wsum = ens._weights.sum() if weighted else nc
         for j in range(ng):
@@ -651,8 +664,8 @@ def run(rep, tier):
     K = 1 if q else 2
     rep.bounds = {"IRFP": "euclidean2 / euclidean <float, 3> and <double, 3>: all 2^192 / 2^384 input bit patterns (QF_FP, round-to-nearest-even), loop unrolled exactly (3 trips)",
                   "rectangular_grid": f"corners, padding >= 0 and spacing > 0 symbolic reals; at most {K + 1} points per axis (extent < {K + 1} spacings): every feasible count vector is one path",
-                  "nearest_atom_index / prune": "structure with 2-3 atoms, ensemble with 2 conformers x 2 atoms, 1-2 grid points; coordinates, grid points, cut-off > 0 and 0 <= eps <= 4 symbolic reals",
-                  "aso / aeif": "1-2 conformers x 1-2 atoms x 1 grid point (thorough: 2 x 2 x 1 weighted and 1 x 2 x 2); coordinates, grid points and (weighted) positive weights symbolic reals; charges concrete and distinct"}
+                  "nearest_atom_index / prune": "structure with 2-3 atoms, ensemble with 2 conformers x 1-2 atoms, 1 grid point (thorough: 2 grid points for a structure); coordinates, grid points, cut-off > 0 and 0 <= eps <= 4 symbolic reals",
+                  "aso / aeif / atomic_indicator_field (the latter with symbolic sphere radii)": "1-2 conformers x 1-2 atoms x 1 grid point (thorough: 2 x 2 x 1 weighted); coordinates, grid points and (weighted) positive weights symbolic reals; charges concrete and distinct"}
     rep.outside = ["the prebuilt molli_xt*.so is not rebuilt (no pybind11 in the sandbox): the IRFP part is about the current distance.cpp, the binary is exercised in validate_stubs and replays only",
                    "cdist22 / cdist32 index loops, array shapes, non-contiguous / transposed inputs (pybind11 conversion)", "KD-tree internals (scipy): replaced by the documented contract of query()",
                    "reals instead of float32/float64 in the SR part: rounding bands at sphere surfaces, at the cut-off and at count boundaries of the grid", "grids with more points per axis, more atoms / conformers"]
@@ -664,13 +677,14 @@ def run(rep, tier):
         rep.add(Obligation(name="irfp/compile", engine="IRFP", status="inconclusive", detail=str(e)))
     T = 120 if q else 600
     jobs = [("grid", g_grid(K), replay_grid, 80)]
-    near = [("geom", 1, 2, 1), ("geom", 1, 3, 1), ("ens", 2, 2, 1)] + ([] if q else [("geom", 1, 2, 2), ("ens", 2, 2, 2)])
+    # sizes beyond these (two grid points against an ensemble, approximate search over 4 points) left nlsat undecided after 600 s per query and are not claimed
+    near = [("geom", 1, 2, 1), ("geom", 1, 3, 1), ("ens", 2, 2, 1)] + ([] if q else [("geom", 1, 2, 2)])
     for kind, nc, na, ng in near:
         jobs.append((f"nearest[{kind},{nc},{na},{ng}]", g_nearest(kind, nc, na, ng), replay_nearest(kind, nc, na, ng), 64 if q else 256))
-    prn = [("geom", 1, 2, 1), ("ens", 2, 1, 1)] + ([] if q else [("geom", 1, 2, 2), ("ens", 2, 2, 1)])
+    prn = [("geom", 1, 2, 1), ("ens", 2, 1, 1)]
     for kind, nc, na, ng in prn:
         jobs.append((f"prune[{kind},{nc},{na},{ng}]", g_prune(kind, nc, na, ng), replay_prune(kind, nc, na, ng), 64 if q else 512))
-    fld = [("aso", 1, 2, 1, False), ("aso", 2, 1, 1, True), ("aeif", 1, 2, 1, False), ("aeif", 2, 1, 1, True)] + ([] if q else [("aso", 2, 2, 1, True), ("aeif", 2, 2, 1, True), ("aso", 1, 2, 2, False), ("aeif", 1, 2, 2, False)])
+    fld = [("aso", 1, 2, 1, False), ("aso", 2, 1, 1, True), ("aeif", 1, 2, 1, False), ("aeif", 2, 1, 1, True), ("aif", 1, 1, 1, False), ("aif", 1, 2, 1, False)] + ([] if q else [("aso", 2, 2, 1, True), ("aeif", 2, 2, 1, True)])
     for which, nc, na, ng, wt in fld:
         jobs.append((f"{which}[{nc},{na},{ng},{'w' if wt else 'u'}]", g_field(which, nc, na, ng, wt), replay_field(which, nc, na, ng, wt), 64 if q else 1024))
     for label, fn, rp, mp in jobs:
@@ -693,7 +707,7 @@ def replay(d):
     if m:
         f = replay_nearest if m.group(1) == "nearest" else replay_prune
         return f(m.group(2), int(m.group(3)), int(m.group(4)), int(m.group(5)))(d["goal"], d["model"], None)
-    m = re.match(r"(aso|aeif)\[(\d+),(\d+),(\d+),(\w)\]", lab)
+    m = re.match(r"(aso|aeif|aif)\[(\d+),(\d+),(\d+),(\w)\]", lab)
     if m:
         return replay_field(m.group(1), int(m.group(2)), int(m.group(3)), int(m.group(4)), m.group(5) == "w")(d["goal"], d["model"], None)
     if lab == "irfp-loops":
